@@ -15,6 +15,7 @@ DECIDED += "; R6 exhaustive scan: Topology::tick_by ticks every link"
 DECIDED += "; R7 the tokio clocks and the nominal clocks advance by the same amount per step (whole-millisecond ticks; recorded finding D16); R8 = C01-R7; R9 the step's start instant is cleared when the step ends and HostTimer::elapsed needs none"
 DECIDED += '; R11 the old LocalSet is destroyed inside an entered runtime (destructors run by crash / bounce read the virtual clock)'
 DECIDED += '; R3 also: since_epoch_at_step_start = since_epoch + start_offset + elapsed; R11 also: the runtime entered for the destruction is the old one'
+DECIDED += '; R1 also: Sim::elapsed is advanced after the last host tick of the step'
 ASSUMPTIONS = ["tokio start_paused + sleep(tick) advances the runtime clock by exactly tick"]
 
 STEP = "turmoil::sim::Sim::step"
